@@ -33,7 +33,7 @@ Classes == {"r_zero", "s_zero", "high_s_rej", "high_s_acc", "x_ge_n", "R_inf", "
             "sample_first", "sample_after_zero", "sample_after_ge_n", "sample_exhausted", "sample_short", "sample_edge_accept",
             "drbg_multi", "drbg_vector",
             "priv_ok", "priv_zero", "priv_ge_n", "priv_badlen", "pub_ok_unc", "pub_ok_cmp", "pub_identity", "pub_invalid",
-            "pub_twist", "ecdh_ok", "ecdh_edge",
+            "pub_twist", "ecdh_ok", "ecdh_edge", "key_immutable",
             "rec_v_ge4", "rec_hi_ok", "rec_hi_overflow", "rec_not_x", "rec_q_inf", "rec_rs_zero", "rec_ok", "rec_honest_other_v"}
 
 RPointOf(q, e, r, s) == LET w == SInv(s) IN PAdd(PMulG(SMul(e, w)), PMul(SMul(r, w), q))
@@ -106,7 +106,8 @@ RECURSIVE DrbgOutputs(_, _)
 DrbgOutputs(st, k) == IF k = 0 THEN <<>> ELSE LET rd == DrbgRead(st) IN <<rd[2]>> \o DrbgOutputs(rd[1], k - 1)
 
 Verdict(ev) ==
-  CASE ev.ev = "vfy.Raw" ->
+  CASE ev.ev = "lib.Unexpected" -> << FALSE, {} >>                 \* a call that must succeed failed or panicked
+    [] ev.ev = "vfy.Raw" ->
          LET q == PtOfEnc(ev.q)  eo == EOf(ev.digest)  r == H(ev.r)  s == H(ev.s)
              want == eo[1] = "ok" /\ VerifyPred(q, eo[2], r, s) IN
          << KeyOK(ev.q) /\ (ev.out <=> want), VerifyClasses(q, eo, r, s, ev.out) \cup DigestClasses(ev.digest) >>
@@ -208,6 +209,10 @@ Verdict(ev) ==
          LET a == ToAffRaw(ev.p) IN
          << IF IsInf(a) THEN ~ev.ok ELSE ev.ok /\ ev.unc = EncUncompressedH(a) /\ ev.cmp = EncCompressedH(a),
             IF IsInf(a) THEN {"pub_identity"} ELSE {"pub_ok_unc"} >>
+    [] ev.ev = "key.Immutable" ->         \* the caller scribbled over every slice / scalar / point handed out or passed in
+         << /\ ev.kb2 = ev.kb1 /\ ev.pb2 = ev.pb1 /\ ev.pc2 = ev.pc1 /\ ev.pa2 = ev.pa1 /\ ev.pp2 = ev.pp1 /\ ev.sig2 = ev.sig1
+            /\ ev.copies_ok /\ ev.verify_after /\ ev.kb1 = ev.d /\ ev.pb1 = EncUncompressedH(PMulG(H(ev.d))) /\ ev.pp1 = ev.pb1,
+            {"key_immutable"} >>
     [] ev.ev = "ecdh" ->
          LET a == H(ev.a)  b == H(ev.b)  want == EcdhM(PMul, SMul(a, b), GenPt) IN
          << /\ KeyOK(ev.bpub) /\ PEq(PtOfEnc(ev.bpub), PMulG(b)) /\ KeyOK(ev.apub) /\ PEq(PtOfEnc(ev.apub), PMulG(a))
